@@ -91,11 +91,23 @@ def run_check(prop, tier, seed):
     # ---- 1. proof step
     proof = {'obligations': 0, 'discharged': 0, 'theorems': [], 'errors': [], 'checker_cmd': '', 'files': []}
     if not any(b['kind'] == 'broken_translator' for b in broken):
-        try:
-            proof = coqrun.proof_step(mod.PROPERTY_FILE, allowed_axioms=getattr(mod, 'ALLOWED_AXIOMS', ()))
-        except Exception as e:
-            proof['errors'].append({'file': None, 'line': None, 'statement': None,
-                                    'message': 'proof step crashed: %r' % (e,)})
+        pfiles = getattr(mod, 'PROPERTY_FILES', None) or [mod.PROPERTY_FILE]
+        for pf in pfiles:
+            try:
+                aa = getattr(mod, 'ALLOWED_AXIOMS', ())
+                if isinstance(aa, dict):
+                    aa = aa.get(pf, ())
+                pr = coqrun.proof_step(pf, allowed_axioms=aa)
+            except Exception as e:
+                pr = {'obligations': 1, 'discharged': 0, 'theorems': [], 'files': [], 'checker_cmd': '',
+                      'errors': [{'file': pf, 'line': None, 'statement': None,
+                                  'message': 'proof step crashed: %r' % (e,)}]}
+            proof['obligations'] += pr['obligations']
+            proof['discharged'] += pr['discharged']
+            proof['theorems'] += pr['theorems']
+            proof['errors'] += pr['errors']
+            proof['files'] = sorted(set(proof['files']) | set(pr.get('files', [])))
+            proof['checker_cmd'] = (proof['checker_cmd'] + ' ; ' if proof['checker_cmd'] else '') + pr.get('checker_cmd', '')
     for e in proof['errors']:
         broken.append({'kind': 'broken_theorem', 'what': '%s (%s:%s)' % (e.get('statement'), e.get('file'), e.get('line')),
                        'message': e['message']})
